@@ -1,6 +1,6 @@
 (* Properties/C07.v — STV with the Droop quota is proportional for solid coalitions; a candidate
    ranked first on ballots worth at least the threshold wins IRV.
-   Statements only; proofs are in Proofs/C07_lib.v, Proofs/C07_pc.v.
+   Statements only; proofs are in Proofs/C07_lib.v, Proofs/C07_random.v, Proofs/C07_pc.v.
    Vocabulary (Spec/PCSpec.v; for the STV vocabulary see the header of Properties/C02.v):
      solid A r          r = pre ++ suf and the positions of pre list exactly the members of A, each
                         once, in some order: the ballot ranks A above all others
@@ -33,6 +33,7 @@ Notation ranking := (ranking cand).
 Notation flat := (flat cand).
 Notation tally := (tally cand ceqb).
 Notation wf_stv_profile := (wf_stv_profile cand).
+Notation script_ok := (script_ok cand).
 Notation stv_inv := (stv_inv cand ceqb).
 Notation stv_init := (stv_init cand).
 Notation stv_step := (stv_step cand ceqb).
@@ -54,6 +55,12 @@ Theorem c07_solidb_spec : forall (A : cset) (r : ranking), NoDup A -> NoDup (fla
   (solidb A r = true <-> solid A r).
 Proof. exact (solidb_solid cand ceqb ceqb_spec). Qed.
 
+(* in particular on every ballot of a valid profile: coal_wt A sums exactly the ballots that rank
+   A above all others *)
+Theorem c07_coalition_ballots : forall (p : profile) (A : cset) b, wf_stv_profile p -> NoDup A ->
+  In b (ballots p) -> (solidb A (rk b) = true <-> solid A (rk b)).
+Proof. exact (coalition_ballots cand ceqb ceqb_spec). Qed.
+
 (* ---------- the invariant ---------- *)
 
 (* it holds at the start for a coalition of weight >= k thresholds *)
@@ -63,12 +70,13 @@ Theorem c07_pc_init : forall (A : cset) k t (p : profile) s0,
   pc_inv A k t p [s0].
 Proof. exact (pc_inv_init cand ceqb ceqb_spec). Qed.
 
-(* every round keeps it: election of members (the coalition loses at most t per elected member)
-   or of others, default election, elimination of a non-member, and elimination of a member — which
-   can only happen when more members are standing than thresholds are left to the coalition *)
+(* every round keeps it, fractional or random transfer: election of members (the coalition loses
+   at most t per elected member) or of others, default election, elimination of a non-member, and
+   elimination of a member — which can only happen when more members are standing than thresholds
+   are left to the coalition *)
 Theorem c07_pc_step : forall cfg t N (p0 p : profile) prev older (s s' : mstate) np st (A : cset) k,
   stv_inv cfg t N p0 p (prev :: older) ->
-  s_transfer cfg = TFractional -> 0 <= t ->
+  s_transfer cfg <> TFullWeight -> (s_transfer cfg = TRandom -> script_ok s) ->
   pc_inv A k t p (prev :: older) ->
   stv_step cfg t p0 (count_elected (prev :: older)) p prev s = inl ((np, st), s') ->
   pc_inv A k t np (st :: prev :: older).
@@ -76,7 +84,7 @@ Proof. exact (pc_step cand ceqb ceqb_spec). Qed.
 
 (* when all seats are filled and (m+1) t > N, it yields min(k, |A|) elected members *)
 Theorem c07_pc_exit : forall cfg t N (p0 pf : profile) stsf (A : cset) k,
-  stv_inv cfg t N p0 pf stsf -> s_transfer cfg = TFractional ->
+  stv_inv cfg t N p0 pf stsf -> s_transfer cfg <> TFullWeight ->
   count_elected stsf = s_m cfg -> N < inject_Z (s_m cfg + 1) * t -> 0 < t ->
   pc_inv A k t pf stsf ->
   (Nat.min k (length A) <= length (elected_of A stsf))%nat.
@@ -84,11 +92,14 @@ Proof. exact (pc_exit cand ceqb). Qed.
 
 (* ---------- Droop proportionality for solid coalitions ---------- *)
 
-(* STV, Droop quota, fractional transfer, simultaneous or one-by-one, any tie-break, any script:
+(* STV, Droop quota, fractional or random transfer (not SequentialRCV's full-weight one),
+   simultaneous or one-by-one, any tie-break, any script of random outcomes (for the random
+   transfer: every replayed ballot sample lists single candidates per position):
    if the ballots that rank the duplicate-free set A of candidates above all others weigh at least
    k thresholds and the count returns, at least min(k, |A|, m) members of A are elected *)
 Theorem c07_droop_pc : forall cfg (p : profile) (A : cset) (k : nat) t (s s' : mstate) out,
-  wf_stv_profile p -> s_quota cfg = QDroop -> s_transfer cfg = TFractional ->
+  wf_stv_profile p -> s_quota cfg = QDroop ->
+  s_transfer cfg <> TFullWeight -> (s_transfer cfg = TRandom -> script_ok s) ->
   NoDup A -> incl A (cands p) ->
   stv_init cfg p = inl t ->
   Qnat k * t <= coal_wt A (ballots p) ->
@@ -99,7 +110,8 @@ Proof. exact (droop_pc cand ceqb ceqb_spec). Qed.
 
 (* IRV (m = 1): a candidate ranked first on ballots worth at least the threshold is the winner *)
 Theorem c07_irv_majority : forall cfg (p : profile) (c : cand) t (s s' : mstate) out,
-  wf_stv_profile p -> s_quota cfg = QDroop -> s_transfer cfg = TFractional -> s_m cfg = 1%Z ->
+  wf_stv_profile p -> s_quota cfg = QDroop ->
+  s_transfer cfg <> TFullWeight -> (s_transfer cfg = TRandom -> script_ok s) -> s_m cfg = 1%Z ->
   In c (cands p) -> stv_init cfg p = inl t ->
   t <= tally c (ballots p) ->
   run_stv cfg p s = inl (out, s') ->
@@ -109,6 +121,7 @@ Proof. exact (irv_majority cand ceqb ceqb_spec). Qed.
 End C07.
 
 Print Assumptions c07_solidb_spec.
+Print Assumptions c07_coalition_ballots.
 Print Assumptions c07_pc_init.
 Print Assumptions c07_pc_step.
 Print Assumptions c07_pc_exit.
@@ -171,9 +184,38 @@ Proof.
   destruct (run_stv positive Pos.eqb ex7_cfg ex7_p ex7_s) as [[sts s']|e] eqn:E;
     [|vm_compute in E; discriminate].
   destruct ex7_coalition as (HA & Hincl & Hcoal & _).
-  exact (c07_droop_pc positive Pos.eqb Pos.eqb_spec ex7_cfg ex7_p ex7_A 1%nat 9%Q ex7_s s' sts
-           ex7_valid eq_refl eq_refl HA Hincl ex7_threshold Hcoal E).
+  refine (c07_droop_pc positive Pos.eqb Pos.eqb_spec ex7_cfg ex7_p ex7_A 1%nat 9%Q ex7_s s' sts
+            ex7_valid eq_refl _ _ HA Hincl ex7_threshold Hcoal E); cbn; discriminate.
 Qed.
+
+(* the same with the random transfer: 1>2>3 x5, 2>1>3 x4, 3>4 x7, 4>3 x6, 5>3 x3 ; quota 9.
+   5 is eliminated, 3 is elected with 10 votes and one of its 3>4 ballots is drawn to move on,
+   2 is eliminated, 1 is elected with exactly 9 (an empty sample is drawn) *)
+Definition ex7r_p : profile positive :=
+  mkProfile [bal7 [1; 2; 3] 5%Q; bal7 [2; 1; 3] 4%Q; bal7 [3; 4] 7%Q; bal7 [4; 3] 6%Q; bal7 [5; 3] 3%Q]
+            [1; 2; 3; 4; 5].
+Definition ex7r_cfg : stv_cfg := mkStv 2%Z QDroop true TRandom None.
+Definition ex7r_s : mstate positive := mkM [DRanks [[[4]]]; DRanks []] [].
+
+Example ex7r_hyps :
+  wf_stv_profile positive ex7r_p /\ script_ok positive ex7r_s /\
+  stv_init positive ex7r_cfg ex7r_p = inl 9%Q /\
+  (Qnat 1%nat * 9 <= coal_wt positive Pos.eqb ex7_A (ballots ex7r_p))%Q.
+Proof.
+  split; [apply (wf_stv_profile_b_ok positive Pos.eqb Pos.eqb_spec); vm_compute; reflexivity|].
+  split; [repeat constructor|]. split; [vm_compute; reflexivity|vm_compute; discriminate].
+Qed.
+
+Example ex7r_run :
+  match run_stv positive Pos.eqb ex7r_cfg ex7r_p ex7r_s with
+  | inl (sts, s') =>
+      map (fun st => (elected st, eliminated st)) sts =
+      [([[]], [[]]); ([[]], [[5]]); ([[3]], [[]]); ([[]], [[2]]); ([[1]], [[]])] /\
+      scr s' = [] /\
+      winners_in positive Pos.eqb ex7_A (flat positive (elected_upto positive sts (length sts - 1))) = 1%nat
+  | inr _ => False
+  end.
+Proof. vm_compute. repeat split. Qed.
 
 (* IRV: 1 x6, 2>1 x3, 3 x2 ; threshold floor(11/2)+1 = 6 ; candidate 1 has 6 first places and wins *)
 Definition ex7_irv_p : profile positive :=
